@@ -183,7 +183,8 @@ func Harness_P01L() {
 	g.emit("func Entry() {")
 	g.emit("\tvar x, y *int")
 	g.emit("\tvar t *T")
-	switch ndChoice("order", ndParam("ORDERS", 5)) {
+	orderMin := ndParam("ORDERMIN", 0)
+	switch orderMin + ndChoice("order", ndParam("ORDERS", 5)-orderMin) {
 	case 0:
 		g.structured()
 		g.stmt(compound)
